@@ -362,6 +362,12 @@ def _run_codec(P, chk, rules, spec, enc_tab):
     chk.site(r7, unit, ir.loc(g), "%s dot flags" % opsname, pd == 0 and ed == 0,
              "places_dots=%s eats_dots=%s (the callers add and strip the dots)" % (pd, ed))
 
+    # the block rules read masks and shift counts as constants of one unrolled block per loop iteration
+    for fn_ in (encf, decf):
+        for b_, x_ in fn_.all_nodes():
+            if x_.get("k") == "Bin" and x_["op"] in ("<<", ">>", "<<=", ">>=") and cval(sk(x_["a"][1])) is None:
+                raise AnalysisBroken("%s: shift by a run-time amount (%s): the codec is not written as one unrolled block per loop "
+                                     "iteration, the block rules do not apply" % (fn_.name, pp(x_)[:50]))
     # ---------------------------------------------------------------- encoder
     w, st0, head, ints = analyse(P, encf, kbits, "enc")
     outc, inc = counters(w, encf, st0, ints)
@@ -576,6 +582,12 @@ def _run_codec(P, chk, rules, spec, enc_tab):
             ok = e_ is not None and e_ == d_
             if ok:
                 nbits_ok += 1
+            elif d_ == bits.TOP or d_ is None or e_ == bits.TOP or e_ is None:
+                # no exact provenance on one side (masks or shifts computed at run time, a decoder driven by a phase
+                # variable): nothing is known, which is not the same as a wrong bit
+                chk.undecided(r3, decf, decf.line, "%s: decode(encode(x)) byte %d bit %d" % (docname, m, t),
+                              "the %s side has no exact bit provenance here (encoder %s, decoder %s)" % (
+                                  "decoder" if (d_ == bits.TOP or d_ is None) else "encoder", e_, d_))
             else:
                 chk.site(r3, decf, decf.line, "%s: decode(encode(x)) byte %d bit %d" % (docname, m, t), False,
                          "encoder places the bit at (char, digit bit) %s, decoder reads %s" % (e_, d_))
